@@ -669,11 +669,10 @@ func runSizePlan(t *testing.T, planAny any, ctl Ctl) *Result {
 				res.violate("C17.d", "wrong-value: "+sizeClass(s), "Parse(%q) = %d, digits x unit = %d", s, int64(got), want)
 			}
 		case bare:
-			// may be accepted (as bytes) or rejected; if accepted it must mean the number
+			// digits without a unit are not the documented form: "accepted only in the documented
+			// digits-plus-unit form"
 			if err == nil {
-				if n, perr := strconv.ParseInt(s, 10, 64); perr != nil || n != int64(got) {
-					res.violate("C17.d", "wrong-value: bare-digits", "Parse(%q) = %d", s, int64(got))
-				}
+				res.violate("C17.d", "malformed-accepted: bare-digits", "Parse(%q) = %d, but there is no unit", s, int64(got))
 			}
 		default:
 			if err == nil {
